@@ -242,8 +242,26 @@ let hexes_of_result (case : string) (r : string) : string list option =
        | _ -> None)
   | _ -> None
 
+(* "HYP <msgspec>": do the hypotheses of theorem c02_wellformed hold for this object? *)
+let hyp_of (c : ctx) (spec : string) : bool =
+  let m = build_msg c spec in wf_msg c m && fresh m
+
 let () = run_protocol (fun case0 impl -> with_schema case0 (fun c case ->
+  match words case with
+  | ["HYP"; spec] ->
+      let h = (try hyp_of c spec with _ -> false) in
+      ((if h then "1" else "0"), impl = "1", h)
+  | _ ->
   let m = run_op c case in
+  (* theorem c02_wellformed, checked on every case: hypotheses => the model's bytes pass wire_ok *)
+  let m = (match words case with
+           | ["ENC"; spec] | ["RT"; _; spec] ->
+               (try if hyp_of c spec && not (match hexes_of_result case m with
+                                             | Some hs -> List.for_all (fun h -> wire_ok c (nlist_of_hex h)) hs
+                                             | None -> false)
+                    then "THEOREM-CONTRADICTED " ^ m else m
+                with _ -> m)
+           | _ -> m) in
   let oracle r =
     match hexes_of_result case r with
     | Some hs -> List.for_all (fun h -> wire_ok c (nlist_of_hex h)) hs
